@@ -818,3 +818,49 @@ func Yield() {
 }
 
 var _ sync.Locker = (*Mutex)(nil)
+
+// Pool stands in for sync.Pool in instrumented packages. Under the scheduler it is a
+// deterministic LIFO free list whose Get and Put are scheduling points (sync.Pool's per-P
+// caches and GC clearing are nondeterminism the explorer cannot own; any object Put may be
+// returned by any later Get, which is exactly what sync.Pool permits). Outside a
+// scheduler run it falls through to a real sync.Pool.
+type Pool struct {
+	New   func() any
+	real  sync.Pool
+	items []any
+}
+
+func (p *Pool) Get() any {
+	if cur == nil {
+		if v := p.real.Get(); v != nil {
+			return v
+		}
+		if p.New != nil {
+			return p.New()
+		}
+		return nil
+	}
+	Yield()
+	if n := len(p.items); n > 0 {
+		v := p.items[n-1]
+		p.items = p.items[:n-1]
+		return v
+	}
+	if p.New != nil {
+		return p.New()
+	}
+	return nil
+}
+
+func (p *Pool) Put(v any) {
+	if cur == nil {
+		p.real.Put(v)
+		return
+	}
+	Yield()
+	p.items = append(p.items, v)
+}
+
+// Reset empties the scheduler-mode free list (harnesses call it at the start of a
+// scenario body so that executions are independent of each other).
+func (p *Pool) Reset() { p.items = nil }
